@@ -8,7 +8,7 @@ ReqOut(r) == [w |-> Dirs[r.w], k1 |-> r.k1, s1 |-> r.s1, s2 |-> r.s2, k2 |-> r.k
                      ELSE [abs |-> Spellings[r.s1].abs, segs |-> Spellings[r.s1].pre, empty |-> FALSE],
               u2 |-> IF r.s2 = 0 THEN [abs |-> FALSE, segs |-> <<>>, empty |-> TRUE]
                      ELSE [abs |-> Spellings[r.s2].abs, segs |-> Spellings[r.s2].pre, empty |-> Spellings[r.s2].empty]]
-CfgOut == IF cfg.fam = "uri" THEN [fam |-> "uri", layout |-> cfg.layout, reqs |-> [k \in 1..Len(cfg.reqs) |-> ReqOut(cfg.reqs[k])]]
+CfgOut == IF cfg.fam = "uri" THEN [fam |-> "uri", reach |-> cfg.reach, layout |-> cfg.layout, reqs |-> [k \in 1..Len(cfg.reqs) |-> ReqOut(cfg.reqs[k])]]
           ELSE cfg
 LayoutOut == [l \in 1..3 |-> [nroots |-> NRootsOf(l), dirs |-> [d \in 1..Len(Dirs) |-> [path |-> Dirs[d], troots |-> TRoots(l, d)]]]]
 Emit == ~(phase = "done" /\ PrintT(ToJson([cfg |-> CfgOut, out |-> out])) /\ FALSE)
